@@ -4,6 +4,7 @@ import (
 	"bytes"
 	"context"
 	"fmt"
+	"os"
 	"runtime/debug"
 	"strings"
 
@@ -24,6 +25,24 @@ func outputMD(doc string, o ops.Opts) (out string, err error, panicked string) {
 	}()
 	err = gtree.OutputFromMarkdown(&buf, strings.NewReader(doc), o.Options(context.Background(), "")...)
 	return buf.String(), err, ""
+}
+
+// outputMDFile is outputMD with an open regular file as the writer (code may treat *os.File specially).
+func outputMDFile(doc string, o ops.Opts) (out string, err error, panicked string) {
+	f, ferr := os.CreateTemp(ops.DefaultEnv.Scratch, "out")
+	if ferr != nil {
+		return outputMD(doc, o)
+	}
+	defer os.Remove(f.Name())
+	defer f.Close()
+	defer func() {
+		if p := recover(); p != nil {
+			panicked = fmt.Sprintf("%v\n%s", p, shortStack())
+		}
+	}()
+	err = gtree.OutputFromMarkdown(f, strings.NewReader(doc), o.Options(context.Background(), "")...)
+	b, _ := os.ReadFile(f.Name())
+	return string(b), err, ""
 }
 
 func shortStack() string {
